@@ -32,13 +32,30 @@ def plan(tier, seed):
 
 
 def make_case(rng):
-    skind = str(rng.choice(["tail", "tail", "random", "tail2d", "random2d"]))
+    skind = str(rng.choice(["tail", "tail", "random", "tail2d", "random2d", "tailmin", "tailmin2d"]))
     layout = str(rng.choice(gs.LAYOUTS))
     lead = gs.lead_shape(rng, layout)
     nf = int(rng.integers(60, 130))
     f = np.linspace(rng.uniform(0.02, 0.05), rng.uniform(0.6, 1.2), nf)
     shape = lead + (nf,)
-    if skind.startswith("tail"):
+    if skind.startswith("tailmin"):
+        # the shortest admissible range: exactly number_of_bins+1 (21) bins of c*f^-4 ending in the fmax (0.5 Hz)
+        # bin, steeper than f^-4 on both sides - exactly one averaging window of the "mean" method fits
+        c = 10 ** rng.uniform(-6, -3, lead + (1,))
+        i_end = int(np.argmin(np.abs(f - 0.5)))
+        i_start = i_end - 20
+        shape_ = np.ones(nf)
+        lo, hi = f < f[i_start], f > f[i_end]
+        shape_[lo] = (f[lo] / f[i_start]) ** 30
+        shape_[hi] = (f[hi] / f[i_end]) ** -3
+        E = c * shape_ * f ** -4.0
+        th = rng.uniform(-np.pi, np.pi, lead + (1,))
+        r = rng.uniform(0.3, 0.95, lead + (1,))
+        inr = (f >= f[i_start]) & (f <= f[i_end])
+        a1 = np.where(inr, r * np.cos(th), rng.uniform(-0.5, 0.5, shape))
+        b1 = np.where(inr, r * np.sin(th), rng.uniform(-0.5, 0.5, shape))
+        extra = {"c": c[..., 0], "theta": np.degrees(th[..., 0])}
+    elif skind.startswith("tail"):
         c = 10 ** rng.uniform(-6, -3, lead + (1,))
         # transition so that >= 25 bins lie between f_t and 0.5 Hz
         i_half = int(np.argmin(np.abs(f - 0.5)))
@@ -58,6 +75,17 @@ def make_case(rng):
         a1, b1, _, _ = gs.moments_in_disc(rng, shape)
         extra = {}
     a2, b2 = rng.uniform(-0.3, 0.3, shape), rng.uniform(-0.3, 0.3, shape)
+    if skind.startswith("tail") and rng.uniform() < 0.3:
+        # directions exactly on the axes (a1 or b1 exactly 0): going-to 0/90/180/270, coming-from 270/180/90/0 -
+        # the places where "% 360" must return 0.0 and not 360.0
+        q = rng.integers(0, 4, lead + (1,))
+        rr = rng.uniform(0.3, 0.95, lead + (1,))
+        ca = np.choose(q, [1.0, 0.0, -1.0, 0.0]) * rr
+        sa = np.choose(q, [0.0, 1.0, 0.0, -1.0]) * rr
+        intail = E * f ** 4.0 > 0.999999 * np.asarray(extra["c"])[..., None]
+        a1 = np.where(intail, ca, a1)
+        b1 = np.where(intail, sa, b1)
+        extra["theta"] = (q[..., 0] * 90.0).astype(float)
     nank = "none"
     if not skind.startswith("tail") and rng.uniform() < 0.4:
         nank, E = gs.apply_nan(rng, E, str(rng.choice(["single", "run", "scatter"])))
